@@ -12,3 +12,11 @@ Definition x_is_contains : iset -> string -> Z -> res := contains x_all codes_ta
 Definition x_is_spec : list op -> string -> Z -> bool := spec x_all codes_table.
 Definition x_doc_url (c : string) : string :=
   doc_url url_arms (match url_default with Some u => u | None => "" end) c.
+
+(* --- reporter (C19, C17) --- *)
+From GG Require Import Model.Reporter.
+Definition x_truncate (s : string) (col : Z) : option string := truncate s max_line_length col.
+Definition x_display_col (s : string) (col : Z) : Z := display_col s col max_line_length.
+Definition x_window (lines : option (list string)) (n : Z) : list (Z * string) := window lines n ctx_before ctx_after.
+Definition x_rep_format (content : option string) (line col : Z) (code msg : string) : outcome :=
+  format_message max_line_length ctx_before ctx_after x_doc_url content line col code msg.
